@@ -2296,7 +2296,9 @@ class StateEngine(object):
                         if key.endswith("Path"):  # Handle variable to variable comparison
                             # Slice off "Path" suffix and get value from path
                             key = key[:-4]
-                            value = apply_path(data, context, value)
+                            # Like Variable, the path is applied to the
+                            # effective input (i.e. after any InputPath).
+                            value = apply_path(input, context, value)
 
                         """
                         The "asl_choice_" prefix mitigates the risk of the key
